@@ -9,6 +9,11 @@ func Verif_C04_R3_FlatGet()         { verifScenarioFlatGet() }
 func Verif_C04_R3_FlatPut()         { verifScenarioFlatPut() }
 func Verif_C04_R3_FlatFindMissing() { verifScenarioFlatFindMissing() }
 
+// composite read: also the child buffer that the slicer hands back (a stream-backed
+// buffer over a close-counting source) is consumed or discarded exactly once, on every
+// path - including a parent that vanishes from the index while it is being sliced.
+func Verif_C04_R3_FlatComposite() { verifScenarioFlatComposite() }
+
 // ... and hierarchical store.
 func Verif_C04_R3_HierGet()         { verifScenarioHierGet() }
 func Verif_C04_R3_HierPut()         { verifScenarioHierPut() }
